@@ -99,6 +99,15 @@ SET_ORDER_QUERIES = [
     ("SELECT * EXCLUDE (a, b) REPLACE (c + 1 AS c) FROM t", "duckdb"),
 ]
 
+TYPE_QUERIES = [
+    "SELECT DECODE(x, 1, 's', 2, 0) + 'b', DECODE(x, 1, d, 2, 0, 'z'), DECODE(x, 1, c, 2, s, 3, a) FROM t",
+    "SELECT COALESCE(s, a, d) + 'b', IFF(c, s, a) + 'b', NVL2(s, a, d), NVL(s, a), IFNULL(d, a), NULLIF(s, a) FROM t",
+    "SELECT GREATEST(a, s, d), LEAST(d, a, s), CASE WHEN c THEN s WHEN a > 1 THEN a ELSE d END + 'b', IF(c, d, s) FROM t",
+    "SELECT [a, s, d], ARRAY(a, s, d), ARRAY_CONSTRUCT(a, s, d), MAP(s, a), STRUCT(a, s, d) FROM t",
+    "SELECT a FROM t UNION ALL SELECT s FROM t UNION ALL SELECT d FROM t",
+    "SELECT a + s, s || a, d + a, a / s, c AND a, CONCAT(a, s, d), a IN (s, d, 1) FROM t",
+]
+
 OPT_QUERIES = [
     "SELECT t.a, u.b, v.c FROM t JOIN u ON t.id = u.id JOIN v ON u.id = v.id WHERE t.a > 1 AND u.b < 2 AND v.c = 3 AND t.x = v.x",
     "SELECT * FROM t, u, v WHERE t.id = u.id AND u.id = v.id AND v.a = t.a AND t.b = 1 AND u.c = 2",
@@ -263,6 +272,11 @@ def build_tasks():
     for d in DIALECTS6:
         if d:
             tasks.append(("define-dialect", d))
+    # expressions whose type is folded from several branch types of DIFFERENT families (the fold must not run over a set)
+    for s in TYPE_QUERIES:
+        for d in ("", "snowflake", "bigquery", "duckdb", "spark", "postgres", "tsql"):
+            tasks.append(("annotate", s, d))
+            tasks.append(("optimize", s, d))
     # the public tree transforms that compute collections of tables / columns
     for s, d in SET_ORDER_QUERIES + [(q, "") for q in OPT_QUERIES]:
         for name in ("eliminate_join_marks", "eliminate_qualify", "eliminate_distinct_on", "unnest_to_explode", "explode_projection_to_unnest",
@@ -578,6 +592,94 @@ def worker_reuse(dname, out_path):
     json.dump({"violations": viol, "counts": counts, "inputs": len(inputs)}, open(out_path, "w"))
 
 
+# ---------------------------------------------------------------------------------------------------- class-level tables
+def _el(x, depth=0):
+    import enum
+    import types
+
+    if isinstance(x, enum.Enum):
+        return f"{type(x).__name__}.{x.name}"
+    if isinstance(x, type):
+        return f"<class {x.__module__}.{x.__qualname__}>"
+    if isinstance(x, (types.FunctionType, types.MethodType)):
+        c = getattr(x, "__code__", None)
+        return f"<fn {getattr(x, '__qualname__', '?')}:{c.co_firstlineno if c else 0}>"
+    if isinstance(x, (set, frozenset, dict, list, tuple)) and depth < 3:
+        return _fp(x, depth + 1)
+    if isinstance(x, (str, int, float, bool, type(None))):
+        return repr(x)
+    return f"<{type(x).__name__}>"
+
+
+def _fp(v, depth=0):
+    if isinstance(v, (set, frozenset)):
+        return ("set",) + tuple(sorted(str(_el(x, depth)) for x in v))
+    if isinstance(v, dict):
+        return ("dict",) + tuple(sorted((str(_el(k, depth)), str(_el(x, depth))) for k, x in v.items()))
+    return ("seq",) + tuple(str(_el(x, depth)) for x in v)
+
+
+def _class_tables(cls):
+    """(attribute -> fingerprint) of the collection-valued class attributes a class DEFINES OR INHERITS (upper-case names)"""
+    out = {}
+    for attr in dir(cls):
+        if not attr.isupper() and not (attr.startswith("_") and attr[1:].isupper()):
+            continue
+        try:
+            v = getattr(cls, attr)
+        except Exception:
+            continue
+        if isinstance(v, (set, frozenset, dict, list, tuple)):
+            out[attr] = _fp(v)
+    return out
+
+
+def worker_classtables(order, out_path):
+    """loads the dialect modules one by one in a fixed permutation; the class-level tables of a dialect's parser / generator /
+    tokenizer (and of the common base classes) as they are right after that dialect has been loaded must still be the same after
+    every other dialect has been loaded: loading (or defining) a dialect never edits another class's tables in place."""
+    from sqlglot.dialects.dialect import Dialect
+    from sqlglot.generator import Generator
+    from sqlglot.parser import Parser
+    from sqlglot.tokens import Tokenizer
+
+    names = sorted(n for n in corpus.dialects() if n)
+    perm = permutation(len(names), order)
+    first, loaded_after = {}, {}
+
+    def snap(tag, classes):
+        for c in classes:
+            key = f"{c.__module__}.{c.__qualname__}"
+            if key not in first:
+                first[key] = (c, _class_tables(c))
+                loaded_after[key] = tag
+
+    snap("<base>", [Parser, Generator, Tokenizer, Dialect])
+    for i in perm:
+        D = Dialect.get_or_raise(names[i])
+        dc = type(D)
+        snap(names[i], [dc, dc.parser_class, dc.generator_class, dc.tokenizer_class] + [getattr(dc, "jsonpath_tokenizer_class", Tokenizer)])
+    viol = []
+    for key, (c, tables) in first.items():
+        now = _class_tables(c)
+        for attr in sorted(set(tables) | set(now)):
+            if attr in CLASS_TABLE_EXEMPT:
+                continue
+            if tables.get(attr) != now.get(attr):
+                a, b = tables.get(attr) or (), now.get(attr) or ()
+                gone = [x for x in a if x not in b][:3]
+                new = [x for x in b if x not in a][:3]
+                viol.append({"key": f"c15:class-tables:{key.split('.')[-2]}.{key.split('.')[-1]}.{attr}",
+                             "what": f"{key}.{attr} as of the moment '{loaded_after[key]}' was loaded differs after all dialects were loaded (load order {order}): "
+                                     f"removed {gone}, added {new}",
+                             "input": {"clause": "class-tables", "order": order, "class": key, "attr": attr}})
+    json.dump({"violations": viol, "classes": len(first), "tables": sum(len(t) for _, t in first.values())}, open(out_path, "w"))
+
+
+# registries that exist to be filled as dialects are loaded
+CLASS_TABLE_EXEMPT = {"_CLASSES", "CLASSES"}
+
+
 # ---------------------------------------------------------------------------------------------------- orchestration
 def spawn(args, hashseed):
     env = dict(os.environ, PYTHONHASHSEED=hashseed)
@@ -629,6 +731,11 @@ def run(tier, seed):
         path = os.path.join(tmp, f"reuse_{d or 'base'}.json")
         rprocs[("reuse", d)] = (spawn(["reuse", d or "-", path], "0"), path)
     rres = collect(rprocs)
+    cprocs = {}
+    for o in (0, 1, 2, 3):
+        path = os.path.join(tmp, f"classtables{o}.json")
+        cprocs[("classtables", o)] = (spawn(["classtables", o, path], "0"), path)
+    cres = collect(cprocs)
 
     violations, counts = {}, {}
 
@@ -665,6 +772,11 @@ def run(tier, seed):
         for k, c in r["counts"].items():
             calls[k] = calls.get(k, 0) + c
             evaluations += c
+    for (_, o), r in cres.items():
+        evaluations += r["tables"]
+        calls[f"class tables compared (load order {o})"] = r["tables"]
+        for v in r["violations"]:
+            V(v["key"], v["what"], v["input"])
     by_func = {}
     for t in tasks:
         by_func[t[0]] = by_func.get(t[0], 0) + 1
@@ -688,6 +800,11 @@ def replay(entry):
     inp = entry["input"]
     clause = inp.get("clause", "")
     tmp = tempfile.mkdtemp(prefix="c15r_")
+    if clause == "class-tables":
+        path = os.path.join(tmp, "c.json")
+        r = collect({"c": (spawn(["classtables", inp["order"], path], "0"), path)})["c"]
+        hits = [v for v in r["violations"] if v["key"] == entry["key"]]
+        return {"violated": bool(hits), "observed": hits[0]["what"] if hits else "class tables unchanged by loading the other dialects"}
     if clause.startswith("reuse"):
         path = os.path.join(tmp, "r.json")
         r = collect({"r": (spawn(["reuse", inp.get("dialect") or "-", path], "0"), path)})["r"]
@@ -716,6 +833,8 @@ if __name__ == "__main__":
         mode = sys.argv[2]
         if mode == "transcript":
             worker_transcript(int(sys.argv[3]), sys.argv[4])
+        elif mode == "classtables":
+            worker_classtables(int(sys.argv[3]), sys.argv[4])
         else:
             worker_reuse("" if sys.argv[3] == "-" else sys.argv[3], sys.argv[4])
         sys.exit(0)
